@@ -361,7 +361,7 @@ where
             ..
         } = &mut self;
         if *has_attr && !*brace_written {
-            if *num_items == 1 {
+            if *num_items == 1 && can_follow_attrs(value, *strategy) {
                 fmt.write_str(" ")?;
             } else {
                 strategy.attr_padding().fmt(fmt)?;
@@ -445,6 +445,32 @@ where
         }
         Ok(())
     }
+}
+
+/// Records the first character written to it and then aborts the formatting.
+struct FirstChar(Option<char>);
+
+impl std::fmt::Write for FirstChar {
+    fn write_str(&mut self, s: &str) -> std::fmt::Result {
+        match s.chars().next() {
+            Some(c) => {
+                self.0 = Some(c);
+                Err(std::fmt::Error)
+            }
+            None => Ok(()),
+        }
+    }
+}
+
+/// Determine whether a value can be written directly after the attributes of a record, as its
+/// only item, without changing the meaning. This is only true of non-extant primitive values: the
+/// attributes or body of a nested record would be merged into the enclosing record and an extant
+/// value would vanish.
+fn can_follow_attrs<V: StructuralWritable, S: PrintStrategy + Copy>(value: &V, strategy: S) -> bool {
+    use std::fmt::Write;
+    let mut probe = FirstChar(None);
+    let _ = write!(probe, "{}", ReconPrint(value, strategy));
+    !matches!(probe.0, None | Some('@') | Some('{'))
 }
 
 fn write_attr_body_val<T: Display>(
@@ -732,10 +758,7 @@ where
         *single_item = num_items == 1;
         if *has_attr {
             match num_items {
-                0 => {}
-                1 => {
-                    fmt.write_str(" ")?;
-                }
+                0 | 1 => {}
                 _ => {
                     strategy.attr_padding().fmt(fmt)?;
                     fmt.write_str("{")?;
@@ -769,10 +792,21 @@ where
             strategy,
             ..
         } = &mut self;
-        if !*brace_written && !*has_attr && *single_item {
-            fmt.write_str("{")?;
-            strategy.start_block(1).fmt(fmt)?;
-            *brace_written = true;
+        if !*brace_written && *single_item {
+            if *has_attr {
+                if can_follow_attrs(value, *strategy) {
+                    fmt.write_str(" ")?;
+                } else {
+                    strategy.attr_padding().fmt(fmt)?;
+                    fmt.write_str("{")?;
+                    strategy.start_block(1).fmt(fmt)?;
+                    *brace_written = true;
+                }
+            } else {
+                fmt.write_str("{")?;
+                strategy.start_block(1).fmt(fmt)?;
+                *brace_written = true;
+            }
         }
         if *first {
             *first = false;
@@ -793,10 +827,19 @@ where
         let AttributePrinter {
             fmt,
             brace_written,
+            single_item,
             first,
+            has_attr,
             strategy,
             ..
         } = &mut self;
+        if *has_attr && !*brace_written && *single_item {
+            // A slot cannot follow the attributes directly (they would become part of its key).
+            strategy.attr_padding().fmt(fmt)?;
+            fmt.write_str("{")?;
+            strategy.start_block(1).fmt(fmt)?;
+            *brace_written = true;
+        }
         if *first {
             *first = false;
         } else {
